@@ -216,7 +216,7 @@ def _work_chunk(prop, tier, base, refs, recheck_every, deadline):
     known = load_known()
     out = {'runs': 0, 'stats': Counter(), 'shapes': set(), 'nontrivial_shapes': set(), 'carried': 0, 'sim_seconds': 0.0,
            'capped': 0, 'violations': [], 'known_hits': Counter(), 'samples': [], 'determinism_checked': 0, 'steps': 0,
-           'other_prop': Counter(), 'faulty_runs': 0, 'faultfree_runs': 0, 'stopped_early': False, 'history_dependent': 0}
+           'other_prop': Counter(), 'faulty_runs': 0, 'faultfree_runs': 0, 'stopped_early': False, 'history_dependent': 0, 'nondeterministic': 0}
     done_refs = []
     for n, ref in enumerate(refs):
         if time.time() > deadline:
@@ -257,7 +257,13 @@ def _work_chunk(prop, tier, base, refs, recheck_every, deadline):
                 a = run_isolated(engine, plan, prop, known)
                 b = run_isolated(engine, plan, prop, known)
                 if a.digest != b.digest:
-                    raise HarnessError('non-deterministic execution: seed %s digests %s vs %s' % (plan['seed'], a.digest, b.digest))
+                    # two pristine children disagree: nothing the harness controls differs between them,
+                    # so either the harness or the library under test is genuinely non-deterministic.
+                    # Counted; decided at the end (exit 2 unless a violation explains it).
+                    out['nondeterministic'] = out.get('nondeterministic', 0) + 1
+                    out['nondeterministic_seed'] = plan['seed']
+                    done_refs.append(ref)
+                    continue
                 # the harness is deterministic; the library under test carries hidden process-global
                 # state that makes an execution depend on what ran before it in the same process
                 out['history_dependent'] += 1
@@ -439,7 +445,7 @@ def run_check(prop, tier, base_seed=None, budget_s=None, workers=None, runs=None
     chunk = max(1, min(250, runs // (workers * 4) or 1))
     agg = {'runs': 0, 'stats': Counter(), 'shapes': set(), 'nontrivial_shapes': set(), 'carried': 0, 'sim_seconds': 0.0, 'capped': 0,
            'violations': [], 'known_hits': Counter(), 'samples': [], 'determinism_checked': 0, 'steps': 0, 'other_prop': Counter(),
-           'faulty_runs': 0, 'faultfree_runs': 0, 'stopped_early': False, 'cpu_s': 0.0, 'history_dependent': 0}
+           'faulty_runs': 0, 'faultfree_runs': 0, 'stopped_early': False, 'cpu_s': 0.0, 'history_dependent': 0, 'nondeterministic': 0}
     harness_errors = []
     ctxmp = multiprocessing.get_context('fork')
     next_i = 0
@@ -477,7 +483,7 @@ def run_check(prop, tier, base_seed=None, budget_s=None, workers=None, runs=None
                 except Exception as e:
                     harness_errors.append('worker failed: %s: %s' % (type(e).__name__, e))
                     continue
-                for k in ('runs', 'carried', 'sim_seconds', 'capped', 'determinism_checked', 'steps', 'faulty_runs', 'faultfree_runs', 'cpu_s', 'history_dependent'):
+                for k in ('runs', 'carried', 'sim_seconds', 'capped', 'determinism_checked', 'steps', 'faulty_runs', 'faultfree_runs', 'cpu_s', 'history_dependent', 'nondeterministic'):
                     agg[k] += o[k]
                 agg['stats'].update(o['stats'])
                 agg['known_hits'].update(o['known_hits'])
@@ -522,13 +528,31 @@ def run_check(prop, tier, base_seed=None, budget_s=None, workers=None, runs=None
             v = _V(v)
             path = write_replay(prop, best, v, ctx.digest, hist)
             ok, proc = replay_in_fresh_interpreter(path)
+            note = ''
             if not ok:
-                harness_errors.append('replay %s did not reproduce in a fresh interpreter (rc=%s): %s' % (path, proc.returncode, proc.stdout[-300:] + proc.stderr[-300:]))
-                continue
-            reported.append((cl, v.message, path, len(best['steps']), len(hist)))
+                # Not reproducible bit for bit in a fresh interpreter.  Re-execute in pristine children:
+                # identical digests every time => the harness is deterministic and the behaviour depends on
+                # something a new interpreter does not share; the clause only some of the time => the
+                # library under test is itself non-deterministic (e.g. keyed on object addresses).
+                same = clause_again = 0
+                for _ in range(5):
+                    r3 = _violates(engine, hist, best, prop, known, cl, {'n': 1, 'deadline': time.time() + 120})
+                    if r3 is not None:
+                        clause_again += 1
+                        if r3[0].digest == ctx.digest:
+                            same += 1
+                if clause_again < 2:
+                    harness_errors.append('replay %s did not reproduce in a fresh interpreter (rc=%s) and only %d/5 times in pristine children: %s'
+                                          % (path, proc.returncode, clause_again, proc.stdout[-300:] + proc.stderr[-300:]))
+                    continue
+                note = (' [NOT exactly replayable: the clause was violated again in %d of 5 pristine re-executions (%d with an identical trace) but not in a fresh '
+                        'interpreter - the library under test behaves non-deterministically, e.g. depends on memory layout / object identity]' % (clause_again, same))
+            reported.append((cl, v.message + note, path, len(best['steps']), len(hist)))
         except Exception as e:
             harness_errors.append('minimiser failed: %s' % ''.join(traceback.format_exception_only(type(e), e)).strip())
 
+    if agg.get('nondeterministic') and not reported:
+        harness_errors.append('%d re-executions in pristine children disagreed with each other (non-deterministic execution) and no violation explains it' % agg['nondeterministic'])
     wall = time.time() - t0
     write_evidence(prop, tier, base_seed, engine, agg, reported, harness_errors, wall, known)
 
@@ -585,6 +609,7 @@ def write_evidence(prop, tier, base_seed, engine, agg, reported, harness_errors,
         'known_findings': {k: v for k, v in agg['known_hits'].items()},
         'violated_clauses': [{'clause': c, 'message': m, 'replay': p} for c, m, p, _, _h in reported],
         'history_dependent_executions': int(agg.get('history_dependent', 0)),
+        'nondeterministic_reexecutions': int(agg.get('nondeterministic', 0)),
         'harness_errors': harness_errors,
         'other_property_clause_hits_ignored': dict(agg['other_prop']),
         'exhaustive': False,
